@@ -179,8 +179,21 @@ class Rig:
         self.p2p = p2p
         self.script = script
         self.peers = sorted(script)
-        self.sched = Sched()
-        node = p2p.Node()
+        self.sched = sched = Sched()
+
+        class NodeX(p2p.Node):
+            """the real Node; rebinding the shared queue attribute is a scheduling point too (a read-copy-write
+            replacement of the queue is split there, so lost updates become visible)"""
+
+            def __setattr__(self, name, value):
+                if name == "_msg_queue" and self.__dict__.get("_rig_ready"):
+                    sched.point("setq")
+                    object.__setattr__(self, name, value)
+                    sched.emit(op="setq", p=sched.tid(), ql=len(value) if hasattr(value, "__len__") else -1)
+                else:
+                    object.__setattr__(self, name, value)
+
+        node = NodeX()
         node._msg_queue = _make_qdeque(self.sched)
         node._registered_commands_to_handle = _make_rlist(self.sched, list(node._registered_commands_to_handle))
         self.socks = {}
@@ -192,6 +205,7 @@ class Rig:
             node._peer_threads[p] = th
             node._peer_data[p] = {}
         self.node = node
+        node._rig_ready = True
         self.threads = [self.sched.run_thread(p, node.recv_loop, p) for p in self.peers]
         self.sched.settle(self.peers)
 
